@@ -765,6 +765,10 @@ pub fn run(run: &mut Run) {
             };
         }
         let budget = run.tier.pick(1500u64, 20_000u64);
+        run.note(
+            "sampling_complement",
+            json!("families shared_module_free_running/* are free-running OS-thread stress runs for a fixed time budget: a sample, not part of the exhaustive claim (`exhaustive` refers to the schedule, thread-count, partition, window and operation-interleaving enumerations)"),
+        );
         run.single(
             "shared_module_free_running/fft64-ref",
             "COMPLEMENT, not exhaustive: 8 OS threads x 32 jobs (Galois elements of thread-specific generators and their inverses, the trace's element list, automorphism / rotation of private vectors, circuit slices on shared prepared inputs, svp / vmp preparation, forward and inverse transforms of private data) on one shared Module, released together from a barrier and repeated for a fixed time budget; every job's digest equals the digest of the same job run alone. Catches shared mutable state behind &Module that the controlled scheduler (yield points at work-item granularity) cannot interleave",
